@@ -12,7 +12,8 @@ EXPLANATION = ("Liveness over runtime states is not statically decidable. Decide
                "magnitude of the signed margin ratio, the partial reply must not subtract loss and penalty from the margin with "
                "fallible unsigned arithmetic; R07.4 in the liquidation replies the helper that sizes an insurance top-up from the "
                "engine's current balance is not called after an outgoing vault transfer was queued in the same response; R07.5 the "
-               "amount reported as already on its way from the insurance fund equals the amount of the Withdraw actually queued.")
+               "amount reported as already on its way from the insurance fund equals the amount of the Withdraw actually queued."
+               " R07.8 the Liquidate handler never reads in-flight records; R07.5 (second half) the top-up sizing credits exactly the figure it is handed and the replies hand it the queued amount; R07.9 the compared ratio is the defined one (R06.2/R06.7/R06.8 evaluated in a C06 context).")
 NOT_DECIDED = "everything else about liveness: that the swap can be filled, that arithmetic never overflows, insurance fund solvency."
 
 CONTRACT_OF = {"margined_vamm": "margined_vamm", "margined_engine": "margined_engine", "margined_insurance_fund": "margined_insurance_fund",
